@@ -16,7 +16,7 @@ import (
 func init() {
 	register(&PropSpec{
 		ID:       "C19",
-		Patterns: []string{"./pkg/config/v2", "./pkg/configmanager", "./pkg/upstream/cluster", "./pkg/filter/stream/...", "./pkg/mosn"},
+		Patterns: []string{"./pkg/config/v2", "./pkg/configmanager", "./pkg/upstream/cluster", "./pkg/filter/stream/...", "./pkg/mosn", "./pkg/router"},
 		Explanation: "(R1) mirror pairs: for every type of pkg/config/v2 with both MarshalJSON and UnmarshalJSON, the relation {derived field <- shadow field} extracted from the SSA of UnmarshalJSON and the relation {shadow field <- derived field} extracted from MarshalJSON must cover the same (derived, shadow) pairs, and every `json:\"-\"` field of the type must appear in both or be listed runtime-only with a reason. " +
 			"(R2) tag lint over the type graph reachable from the dumped roots: no two fields of one struct (after embedding, at the winning depth) share a JSON key (encoding/json would drop both silently), no struct inherits a promoted MarshalJSON/UnmarshalJSON from an embedded field without defining its own (the promoted method would hijack the outer encoding). " +
 			"(R3) the persisted dump reassembles every part of the effective model: transferConfig reads every field of effectiveConfig and stores listeners, routers (with their original path), clusters, cluster path and extends into the MOSNConfig it marshals. " +
